@@ -6,7 +6,8 @@ CONSTANTS
   Node <- TNode
   Delegates <- None
   NsStates <- None
+  IdStates <- None
 INIT TInit
 NEXT TNextStrict
-INVARIANTS OnlyStrangersRemoved ProtectedUntouched WholeRepoOnlyWithoutSigrefs NoSigrefsRemovesRepo ErrorIsNoop ReportedIsRemoved UnsignedKept Idempotent
+INVARIANTS OnlyStrangersRemoved ProtectedUntouched WholeRepoOnlyWithoutSigrefs NoSigrefsRemovesRepo UnreadableIsError ErrorIsNoop ReportedIsRemoved UnsignedKept Idempotent
 POSTCONDITION Accepted
